@@ -23,12 +23,17 @@ def load_corpus(kinds):
     return cases
 
 
+def strip(lines):
+    """drop implementation-only (`i:`) and model-only (`m:`) annotation lines before comparing"""
+    return [l for l in lines if not l.startswith(("i: ", "m: "))]
+
+
 def evaluate(prop, cfg, cases, impl, model):
     """-> (disagreements, oracle_failures): lists of (case, detail)"""
     dis, ora = [], []
     for c in cases:
         io, mo = impl.get((c.kind, c.cid), ["<no output>"]), model.get((c.kind, c.cid), ["<no output>"])
-        pi, pm = cfg["proj"](c, io), cfg["proj"](c, mo)
+        pi, pm = cfg["proj"](c, strip(io)), cfg["proj"](c, strip(mo))
         d = V.first_diff(pi, pm)
         if d is not None:
             dis.append((c, dict(projection=cfg.get("proj_name", prop), line=d[0], implementation=d[1], model=d[2])))
@@ -51,10 +56,11 @@ def shrink(prop, cfg, case, mode):
         c = Case(case.kind, "shrink", cfg.get("fix_body", lambda b: b)(body))
         if mode == "oracle":
             io = V.run_cases(V.HBIN, [c], jobs=1).get((c.kind, c.cid), [])
-            return bool(cfg["oracle"](c, io)) and not cfg.get("known_match", lambda *_: None)(c, io)
+            mo = V.run_cases(V.DRIVER, [c], jobs=1).get((c.kind, c.cid), [])
+            return bool(cfg["oracle"](c, io)) and not cfg.get("known_match", lambda *_: None)(c, io, mo)
         io = V.run_cases(V.HBIN, [c], jobs=1).get((c.kind, c.cid), [])
         mo = V.run_cases(V.DRIVER, [c], jobs=1).get((c.kind, c.cid), [])
-        return V.first_diff(cfg["proj"](c, io), cfg["proj"](c, mo)) is not None
+        return V.first_diff(cfg["proj"](c, strip(io)), cfg["proj"](c, strip(mo))) is not None
     body = V.ddmin(case.body, pred, max_tests=cfg.get("shrink_tests", 250))
     return Case(case.kind, case.cid + "-min", body, case.meta)
 
@@ -130,7 +136,7 @@ def main():
     ora_ids = set()
     for c, fails in ora:
         io = impl.get((c.kind, c.cid), [])
-        kid = cfg.get("known_match", lambda *_: None)(c, io)
+        kid = cfg.get("known_match", lambda *_: None)(c, io, model.get((c.kind, c.cid), []))
         if kid is not None and kid in known_hits:
             known_hits[kid] += 1
             ora_ids.add((c.kind, c.cid))
@@ -158,9 +164,10 @@ def main():
         found = None
         probe = [small] + cfg.get("perturb", lambda case, rng: [])(small, rng)
         pio = V.run_cases(V.HBIN, probe)
+        pmo = V.run_cases(V.DRIVER, probe)
         for pc in probe:
             f = cfg["oracle"](pc, pio.get((pc.kind, pc.cid), []))
-            if f and cfg.get("known_match", lambda *_: None)(pc, pio.get((pc.kind, pc.cid), [])) is None:
+            if f and cfg.get("known_match", lambda *_: None)(pc, pio.get((pc.kind, pc.cid), []), pmo.get((pc.kind, pc.cid), [])) is None:
                 found = (pc, f)
                 break
         sio, smo = run_both([small])
@@ -170,7 +177,7 @@ def main():
                 case=dict(kind=found[0].kind, body=found[0].body), failures=found[1],
                 correspondence=detail, implementation=pio.get((found[0].kind, found[0].cid), [])))
         else:
-            d = V.first_diff(cfg["proj"](small, sio.get((small.kind, small.cid), [])), cfg["proj"](small, smo.get((small.kind, small.cid), [])))
+            d = V.first_diff(cfg["proj"](small, strip(sio.get((small.kind, small.cid), []))), cfg["proj"](small, strip(smo.get((small.kind, small.cid), []))))
             violation("correspondence", dict(
                 what=f"correspondence '{detail['projection']}' between the Lean model and the implementation no longer checks; "
                      "no input violating the property itself was found",
@@ -234,7 +241,7 @@ def replay(prop, cfg, path):
     print("--- case"); print(c.text())
     print("--- implementation"); print("\n".join(io))
     print("--- model"); print("\n".join(mo))
-    d = V.first_diff(cfg["proj"](c, io), cfg["proj"](c, mo))
+    d = V.first_diff(cfg["proj"](c, strip(io)), cfg["proj"](c, strip(mo)))
     print("--- projection difference:", d)
     f = cfg["oracle"](c, io)
     print("--- property oracle on the implementation:", f if f else "holds")
